@@ -80,6 +80,15 @@ Theorem C11_regular_cert_scaled_sound :
 Proof. exact regular_cert_scaled_sound_lemma. Qed.
 Print Assumptions C11_regular_cert_scaled_sound.
 
+(* Homogeneity: the check clears denominators by scaling the matrix by s and the solution by t (s, t non-zero; the
+   right-hand side by s t); the verdicts of the exact checkers do not change. *)
+Theorem C11_exact_check_scale_invariant :
+  forall n B x b s t, ~ s == 0 -> ~ t == 0 ->
+  check_solve_right n (mscale s B) (vscale t x) (vscale (s * t) b) = check_solve_right n B x b /\
+  check_solve_left n (mscale s B) (vscale t x) (vscale (s * t) b) = check_solve_left n B x b.
+Proof. exact exact_check_scale_invariant_lemma. Qed.
+Print Assumptions C11_exact_check_scale_invariant.
+
 (* ---- satisfiable, non-trivial instances ---- *)
 Definition exB : mat := [[2#3; 1; 0]; [1; 1; 0]; [0; 3; 1#2]].
 Definition exBinv : mat := [[-3; 3; 0]; [3; -2; 0]; [-18; 12; 2]].
@@ -96,3 +105,6 @@ Example ex_singular : singular_cert 2 [[1#3; 2#3]; [1#2; 1]] [3; -2] = true.
 Proof. vm_compute. reflexivity. Qed.
 Example ex_basis : basis_matrix 2 [[1; 2]; [3; 4]; [5; 6]] [2; -2]%Z = Some [[5; 6]; [0; 1]].
 Proof. reflexivity. Qed.
+Example ex_scale : check_solve_right 3 exB [1; 2; 4] [8#3; 15; 2] = true /\
+                   check_solve_right 3 (mscale 6 exB) (vscale 5 [1; 2; 4]) (vscale 30 [8#3; 15; 2]) = true.
+Proof. vm_compute. split; reflexivity. Qed.
